@@ -42,8 +42,15 @@ def run_case(c):
             x = np.array([c["x"], c["x2"]], dtype=float)
             s = Surrogates(original_data=enc.represent(x, c["case"])[0], silence_level=3)
             if c.get("prior"):
+                import zlib
                 try:
-                    s.twin_surrogates(dimension=3 - c["dim"], delay=1, threshold=float(c["thr"]), min_dist=c["md"])
+                    if zlib.crc32(c["case"].encode()) % 2:
+                        # a prior call with the SAME parameters, then a foreign embedding assigned through the
+                        # public setter: the next call must embed again
+                        s.twin_surrogates(dimension=c["dim"], delay=1, threshold=float(c["thr"]), min_dist=c["md"])
+                        s.embedding = s.embed_time_series_array(s.original_data, 3 - c["dim"], 1)
+                    else:
+                        s.twin_surrogates(dimension=3 - c["dim"], delay=1, threshold=float(c["thr"]), min_dist=c["md"])
                 except Exception:
                     pass
             surr = s.twin_surrogates(dimension=c["dim"], delay=1, threshold=float(c["thr"]), min_dist=c["md"])
